@@ -493,12 +493,14 @@ Proof.
   intros debug o Hq. destruct o; try discriminate Hq; [rewrite StorageD.sd_step_op_QueryAll | cbn [step_op] ..].
   - apply q_fr_bind; [apply q_fr_readonly, readonly_resolveR|]. intros rl.
     apply q_fr_bind; [apply q_fr_readonly, readonly_resolve_relidx|]. intros ?rl.
+    apply q_fr_bind; [apply q_fr_readonly, readonly_check_unsafe_rels|]. intros _.
     apply q_fr_bind; [intros s; apply query_open_frame|]. intros qi.
     apply q_fr_bind; [apply q_fr_readonly, StorageD.sd_ro_query_count|]. intros cnt.
     apply q_fr_bind; [apply r2q_fr_drain_go|]. intros es.
     apply q_fr_bind; [apply q_fr_close|]. intros _. apply q_fr_ret.
   - apply q_fr_bind; [apply q_fr_readonly, readonly_resolveR|]. intros rl.
     apply q_fr_bind; [apply q_fr_readonly, readonly_resolve_relidx|]. intros ?rl.
+    apply q_fr_bind; [apply q_fr_readonly, readonly_check_unsafe_rels|]. intros _.
     apply q_fr_bind; [intros s; apply query_open_frame|]. intros qi. apply q_fr_ret.
   - apply q_fr_bind; [intros s; apply query_next_frame|]. intros b. apply q_fr_ret.
   - apply q_fr_bind; [apply q_fr_close|]. intros b. apply q_fr_ret.
